@@ -139,15 +139,37 @@ struct C03 : Property
 		// an error on one side only is never equivalent.
 		bool equivalent(const StreamObs &o0) const
 		{
-			// "unexpected end of data" is what json-c reports for a remainder that holds nothing but white space, comments or the
-			// terminator after an early success: for the caller that is the end of the stream, like a pending "continue"
+			// "unexpected end of data" is what json-c reports for a remainder that starts with nothing but white space, comments or the
+			// terminator after an early success (e.g. "/*\0" delivered on its own).  The caller's stream ends there, whatever bytes follow the
+			// NUL: what it got so far must be a prefix of what the other delivery yields.
 			StreamObs me = *this, o = o0;
-			for (StreamObs *x : {&me, &o})
-				if (x->terminal == json_tokener_error_parse_eof)
-				{
-					x->terminal = -1;
-					x->pending = true;
-				}
+			bool me_eof = false, o_eof = false;
+			if (me.terminal == json_tokener_error_parse_eof)
+			{
+				me.terminal = -1;
+				me_eof = true;
+			}
+			if (o.terminal == json_tokener_error_parse_eof)
+			{
+				o.terminal = -1;
+				o_eof = true;
+			}
+			auto is_prefix = [](const std::vector<std::string> &a, const std::vector<std::string> &b) {
+				if (a.size() > b.size())
+					return false;
+				for (size_t i = 0; i < a.size(); i++)
+					if (a[i] != b[i])
+						return false;
+				return true;
+			};
+			if ((me.terminal < 0) != (o.terminal < 0))
+				return false; // a real (non end-of-data) error on one side only
+			if (me_eof || o_eof)
+			{
+				if (me_eof && o_eof)
+					return is_prefix(me.values, o.values) || is_prefix(o.values, me.values);
+				return me_eof ? is_prefix(me.values, o.values) : is_prefix(o.values, me.values);
+			}
 			return me.equivalent_norm(o);
 		}
 		bool equivalent_norm(const StreamObs &o) const
